@@ -39,7 +39,11 @@ Explained(e, R2) ==
                                /\ ListFormScope(e) /\ ~InTable(e)
                                /\ Known(e, "list_form_combinator")
     [] e.k = "unify"   -> IF UnifyOK(e) THEN TRUE
-                          ELSE UnifyScope(e) /\ Known(e, "super_child_through_siblings")
+                          ELSE LET A == IF "super_child_through_siblings" \in SeqToSet(e.devs) THEN UnifyChildSib(e) ELSE {}
+                                   B == IF "unify_keeps_general_pseudo" \in SeqToSet(e.devs) THEN UnifyLostFn(e) ELSE {} IN
+                               /\ UnifyBad(e) \subseteq (A \cup B)
+                               /\ (A # {} => Known(e, "super_child_through_siblings"))
+                               /\ (UnifyBad(e) \ A # {} => Known(e, "unify_keeps_general_pseudo"))
     [] e.k = "extend"  -> ExtendOK(e)
     [] e.k = "replace" -> ReplaceOK(e)
     [] e.k = "nest"    -> NestOK(e)
